@@ -57,7 +57,8 @@ def S(b):
 VOLRX = dict(anch=False, lit=B("/Volumes/"), wild=True, repl=B("~"))
 HOME, CWD = "/vhome/user", "/usr/lib"
 
-STD_MAPS = [("/srv/secret", "$S"), ("/vhome/user/work", "~work"), ("/srv/sec", "$C"),
+# (the third differs from the first in letter case only: keys are compared byte for byte)
+STD_MAPS = [("/srv/secret", "$S"), ("/vhome/user/work", "~work"), ("/srv/Secret", "$U"), ("/srv/sec", "$C"),
             ("/srv/secret/app", "$A"), ("/srv/secret", "$T"), ("/usr/lib/go", "$G")]
 # relative directories (the file names of a -trimpath build are relative): a nested pair and one that
 # shares only a string prefix with the first
@@ -100,7 +101,7 @@ def scenarios(ctx):
     tab_acts = ["AddMap", "RemoveMap", "ResetMap", "SetFlag"]
     rx_acts = ["AddRx", "RemoveRx", "ResetRx", "SetFlag", "ResetMap"]
     relwd_acts = ["AddMap", "RemoveMap", "SetFlag", "Chdir"]
-    nmaps = 2 if q else 5
+    nmaps = 3 if q else 6
     std = dict(home=HOME, cwd=CWD, maps=STD_MAPS[:nmaps], rxs=STD_RXS, inputs=STD_INPUTS, sites=STD_SITES,
                assumes=ALL_ASSUMES, dirs=STD_DIRS)
     # the two dimensions "relative directories / relative paths" and "the working directory changes after
